@@ -17,6 +17,10 @@ DSw == Decl("s", "account", "plain", NoExpr, "", VStr("not an address!"))
 DAm == Decl("amt", "monetary", "plain", NoExpr, "", VMon(3))
 DN  == Decl("n", "number", "plain", NoExpr, "", VNum(2))
 DAs == Decl("as", "asset", "plain", NoExpr, "", VAsset("USD"))
+\* what a JSON null in the request's variable map becomes: the string "null" (for an account variable it is an address)
+DNnull  == Decl("n", "number", "plain", NoExpr, "", VStr("null"))
+DAmnull == Decl("amt", "monetary", "plain", NoExpr, "", VStr("null"))
+DAsnull == Decl("as", "asset", "plain", NoExpr, "", VStr("null"))
 DP  == Decl("p", "account", "meta", M, "payer", NoVal)
 DPx == Decl("p", "account", "meta", M, "missing", NoVal)
 DPt == Decl("p", "monetary", "meta", M, "payer", NoVal)
@@ -29,7 +33,7 @@ DBb == Decl("balb", "monetary", "balance", B, "", NoVal)
 DBn == Decl("bal", "number", "balance", A, "", NoVal)
 DBs == Decl("bal", "monetary", "balance", Var("s"), "", NoVal)
 
-DeclSets == {<<>>, <<DAs>>, <<DAs, DN>>, <<DS>>, <<DSm>>, <<DSw>>, <<DAm>>, <<DS, DAm>>, <<DAm, DN>>, <<DP>>, <<DPx>>, <<DPt>>, <<DS, DPv>>, <<DAm, DPe>>, <<DPv, DS>>,
+DeclSets == {<<>>, <<DNnull>>, <<DAmnull>>, <<DAsnull>>, <<DAm, DNnull>>, <<DAs>>, <<DAs, DN>>, <<DS>>, <<DSm>>, <<DSw>>, <<DAm>>, <<DS, DAm>>, <<DAm, DN>>, <<DP>>, <<DPx>>, <<DPt>>, <<DS, DPv>>, <<DAm, DPe>>, <<DPv, DS>>,
              <<DF, DAm>>, <<DB>>, <<DB, DF>>, <<DB, DB2>>, <<DBb, DAm>>, <<DBn>>, <<DS, DBs>>, <<DS, DS>>}
 
 Amts == {Lit(VMon(3)), Lit(VMon(0)), Var("amt"), Var("bal"), Var("balb"), Add(Var("amt"), Lit(VMon(1))), Sub(Var("amt"), Lit(VMon(5))),
